@@ -284,6 +284,8 @@ def _valid_value(s, rnd):
     if t == "Decimal":
         return rnd.choice([0, 0.5, -0.5])
     if t in ("ByteH", "ByteL"):
+        if s.id_.endswith("_switch"):
+            return rnd.choice([0, -1])   # the on/off byte of a schedule group: other values make the group undecodable
         return rnd.choice([0, 1, -1, 100, -128])
     if t == "Timestamp":
         return "2023-05-17T10:11:12"
